@@ -443,7 +443,7 @@ def run_task(args):
         for ob in obs:
             if mutant:
                 # negative control: one refuted obligation is all that is asked for (short budget, no second opinions)
-                status, backend, secs, model, reason = prove(ob['pc'], ob['goal'], min(10000, TIMEOUT_MS[tier]), light=True)
+                status, backend, secs, model, reason = prove(ob['pc'], ob['goal'], TIMEOUT_MS[tier], light=True)
             else:
                 # second efforts (4x retry, external solvers) are bounded per task: a source change that makes many
                 # obligations hard must not stall the check (they stay 'undecided', never 'violated')
@@ -492,6 +492,14 @@ def apply_mutation(text, m):
     if m['old'] not in text:
         raise ControlNotApplicable(f"negative control pattern not found in the current source")
     return text.replace(m['old'], m['new'], 1)
+
+
+def _npconf(seed):
+    from . import npconf
+    try:
+        return npconf.run(seed)
+    except Exception as e:
+        return [f'conformance run crashed: {e!r}'], 0
 
 
 def crosscheck_task(args):
@@ -652,11 +660,15 @@ def run_property(mod, prop, tier, seed, jobs):
             cc_tasks.append((mod.__name__, prop, C.name, cfg, seed + i))
     ctx = mp.get_context('fork')
     with ctx.Pool(max(1, jobs)) as pool:
+        r_conf = pool.apply_async(_npconf, (seed,))
         r_main = pool.map_async(run_task, tasks, chunksize=1)
         r_mut = pool.map_async(run_task, mut_tasks, chunksize=1)
         r_cc = pool.map_async(crosscheck_task, cc_tasks, chunksize=1)
         main, mut, cc = r_main.get(), r_mut.get(), r_cc.get()
+        conf_bad, conf_n = r_conf.get()
     obligations, errors = [], []
+    for b in conf_bad:
+        errors.append({'numpy_model_conformance': b[:400]})
     paths = 0
     solver_s = 0.0
     by_backend = {}
@@ -708,6 +720,7 @@ def run_property(mod, prop, tier, seed, jobs):
         'dropped': DROPPED, 'negative_controls': neg, 'crosscheck': cc_out,
         'vacuity': {'contracts_x_configs': len(tasks), 'all_nonzero': not any('vacuity' in str(e.get('error')) for e in errors)},
         'bounded_in': getattr(mod, 'BOUNDED_IN', []),
+        'numpy_model_conformance': {'probes': conf_n, 'mismatches': len(conf_bad)},
         'slowest_tasks': sorted([(round(r['wall'], 1), ('control:' + r['mutant'] + ' ' if r.get('mutant') else '') + r['contract'] + '[' + r['config'] + ']') for r in main + mut], reverse=True)[:6],
         'wall': time.time() - t0,
     }
